@@ -6,7 +6,7 @@
    with the documented departures of DESIGN.md 6.1 as named definitions dep_...).
    The theorems hold for every abstract input (no bounds). Where the unchanged library differs
    from the rules and the difference is a finding, the input class is excluded by a named
-   hypothesis (no_F18, no_tpi_on_non_invite, no_F22, no_F26, no_broken_power_levels) and a
+   hypothesis (no_F18, no_tpi_on_non_invite, no_F22, no_F26, no_F53, no_broken_power_levels) and a
    ..._refuted witness shows the difference on a concrete input. *)
 From Verif Require Import Lib.Bytes Json.Ast Auth.GoJson Auth.Ids Auth.Types Auth.Versions Auth.Abs
      Auth.Decide Auth.Model Auth.AllowedSpec Auth.PLSpec Auth.PLProofs Auth.SpecProofs
@@ -17,7 +17,7 @@ Open Scope Z_scope.
 Theorem allowed_refines_spec :
   forall a sv,
     rules_agree (ai_flags a) sv -> auth_wf sv a ->
-    no_F18 a -> no_tpi_on_non_invite a -> no_F22 sv a -> no_F26 a -> no_broken_power_levels a ->
+    no_F18 a -> no_tpi_on_non_invite a -> no_F22 sv a -> no_F26 a -> no_F53 a -> no_broken_power_levels a ->
     decide_spec sv a = accepted (decide_model a).
 Proof. exact refines_spec. Qed.
 
@@ -46,12 +46,12 @@ Theorem allowed_model_refines_spec :
     flags_of_version ver = Some f -> spec_rules_of ver = Some sv ->
     let a := abs sig_ok f e auths in
     auth_wf sv a ->
-    no_F18 a -> no_tpi_on_non_invite a -> no_F22 sv a -> no_F26 a -> no_broken_power_levels a ->
+    no_F18 a -> no_tpi_on_non_invite a -> no_F22 sv a -> no_F26 a -> no_F53 a -> no_broken_power_levels a ->
     (decide_spec sv a = true <-> allowed_model sig_ok ver e auths = Some VOk).
 Proof.
-  intros sig_ok ver f sv e auths Hin Hf Hs a Hwf H18 Ht H22 H26 Hnb.
+  intros sig_ok ver f sv e auths Hin Hf Hs a Hwf H18 Ht H22 H26 H53 Hnb.
   unfold allowed_model. rewrite Hf. fold a.
-  rewrite (refines_spec a sv (version_rules_agree ver f sv Hin Hf Hs) Hwf H18 Ht H22 H26 Hnb).
+  rewrite (refines_spec a sv (version_rules_agree ver f sv Hin Hf Hs) Hwf H18 Ht H22 H26 H53 Hnb).
   destruct (decide_model a); simpl; split; congruence.
 Qed.
 
@@ -73,7 +73,8 @@ Theorem power_levels_rules :
 Proof. exact SpecProofs.power_levels_rules. Qed.
 
 Theorem redaction_rules :
-  forall a sv, rules_agree (ai_flags a) sv -> spec_redaction sv a = accepted (decide_redaction a).
+  forall a sv, rules_agree (ai_flags a) sv -> ai_redacts_domain a <> None ->
+    spec_redaction sv a = accepted (decide_redaction a).
 Proof. exact SpecProofs.redaction_rules. Qed.
 
 Theorem alias_rules :
@@ -213,6 +214,26 @@ Theorem F18_refuted :
   /\ decide_model other = VOk /\ decide_spec (wit_rules true) other = false.
 Proof. vm_compute. repeat split; reflexivity. Qed.
 
+(* F53: the creator (level 2^53-1 without a power-levels event) redacts in a version 1 room with a
+   redacts that has no domain part: the rules allow (level first), the library refuses *)
+Theorem F53_refuted :
+  let c1 := {| c_room := bs "!r:hs1"; c_event_id := bs "$c"; c_sender := bs "@alice:hs1";
+               c_sender_domain := bs "hs1"; c_federate := true; c_room_version := Some (bs "1");
+               c_additional := [] |} in
+  let a0 := wit_input (wit_flags CrV1) KRedaction None JrInvite None None (cc_ok true) None false false in
+  let a := {| ai_flags := ai_flags a0; ai_provider_ok := true; ai_one_room := true; ai_kind := KRedaction;
+              ai_type := bs "m.room.redaction"; ai_room := ai_room a0; ai_room_kind := ai_room_kind a0;
+              ai_sender := ai_sender a0; ai_sender_domain := ai_sender_domain a0; ai_state_key := None;
+              ai_prev := ai_prev a0; ai_create := Some c1; ai_pl_present := false;
+              ai_pl := pl_absent (bs "@alice:hs1");
+              ai_join_rule := JrInvite; ai_sender_member := Some MsJoin; ai_new_member := None;
+              ai_target_member := None; ai_tpi_event := None; ai_sig_ok := false; ai_sig_ok_spec := false;
+              ai_tpi_sender_ok := false; ai_via_split_ok := false; ai_via_member := None;
+              ai_new_pl := None; ai_new_pl_users_ok := true; ai_redacts_domain := None;
+              ai_cc := cc_ok true |} in
+  decide_model a = VNotAllowed /\ decide_spec (wit_rules true) a = true.
+Proof. vm_compute. split; reflexivity. Qed.
+
 (* the third-party-invite rule belongs to membership invite only: on every other membership the
    rules -- under any choice of departures, hence also the literal text -- ignore the block *)
 Theorem third_party_block_ignored_on_non_invite :
@@ -249,7 +270,8 @@ Example allowed_refines_spec_concrete :
   let a := wit_input (wit_flags CrV1) KMember (Some (bs "@bob:hs2")) JrInvite (Some m) (Some MsLeave)
                      (cc_ok true) None false false in
   rules_agree (ai_flags a) (wit_rules true) /\ auth_wf (wit_rules true) a
-  /\ no_F18 a /\ no_tpi_on_non_invite a /\ no_F22 (wit_rules true) a /\ no_F26 a /\ no_broken_power_levels a
+  /\ no_F18 a /\ no_tpi_on_non_invite a /\ no_F22 (wit_rules true) a /\ no_F26 a /\ no_F53 a
+  /\ no_broken_power_levels a
   /\ decide_model a = VOk /\ decide_spec (wit_rules true) a = true.
 Proof.
   cbv zeta.
@@ -261,6 +283,7 @@ Proof.
   split. { intros m t H. vm_compute in H. inversion H; subst. discriminate. }
   split. { intro H. discriminate. }
   split. { intros m H. vm_compute in H. inversion H; subst. discriminate. }
+  split. { intro H. discriminate. }
   split. { intros c H. vm_compute in H. inversion H; subst. reflexivity. }
   split; vm_compute; reflexivity.
 Qed.
@@ -480,6 +503,7 @@ Print Assumptions F22_refuted.
 Print Assumptions F26_refuted.
 Print Assumptions F18_refuted.
 Print Assumptions F27_refuted.
+Print Assumptions F53_refuted.
 Print Assumptions third_party_block_ignored_on_non_invite.
 Print Assumptions third_party_block_ignored_on_non_invite_with.
 Print Assumptions rules_are_all_departures_on.
